@@ -470,7 +470,7 @@ type d13Sess struct {
 	created    map[string]bool // tables created (or renamed) by this tx
 	renamed    map[string]bool // tables with a column renamed by this tx
 	renamedT   map[string]bool // tables renamed by this tx
-	droppedIx  map[string]bool // tables an index of which this tx dropped (known defect: indexesByColID keeps the index)
+	droppedIx  map[string][]string // table -> columns of the indexes this tx dropped (R24, repaired: Table.deleteIndex left them in indexesByColID)
 	gone       map[string]bool // "table/id" deleted by this tx
 	idxTaint   bool
 	engUpd     int
@@ -617,6 +617,19 @@ func d13Show(xs []string) string {
 	return strings.Join(xs, " ")
 }
 
+// the rows of COLUMNS(t) in the rendering of d13Table.catalogLine
+func d13ColLines(cq sqlQRes) []string {
+	var cs []string
+	for _, r := range cq.Rows {
+		if len(r) >= 9 {
+			cs = append(cs, fmt.Sprintf("%s:%s:%d:%s", r[1].s, r[2].s, r[3].i, d13ColFlags(r[4].b, r[5].b, r[6].b, r[7].b, r[8].b)))
+		} else if len(r) >= 4 {
+			cs = append(cs, fmt.Sprintf("%s:%s:%d", r[1].s, r[2].s, r[3].i))
+		}
+	}
+	return cs
+}
+
 // what a session observes: the catalog lines and the rows of every table it can see
 type d13Obs struct {
 	err     string
@@ -648,14 +661,8 @@ func (c *d13Case) observeAs(sid int, tx *sql.SQLTx, expect *d13DB) d13Obs {
 			o.catalog = append(o.catalog, n+" COLUMNS/INDEXES: "+cq.Err+"/"+iq.Err)
 			continue
 		}
-		var cs, is, sec []string
-		for _, r := range cq.Rows {
-			if len(r) >= 9 {
-				cs = append(cs, fmt.Sprintf("%s:%s:%d:%s", r[1].s, r[2].s, r[3].i, d13ColFlags(r[4].b, r[5].b, r[6].b, r[7].b, r[8].b)))
-			} else if len(r) >= 4 {
-				cs = append(cs, fmt.Sprintf("%s:%s:%d", r[1].s, r[2].s, r[3].i))
-			}
-		}
+		var is, sec []string
+		cs := d13ColLines(cq)
 		for _, r := range iq.Rows {
 			if len(r) >= 4 {
 				u := "nonunique"
@@ -1104,7 +1111,7 @@ func (c *d13Case) autocommit(s *d13Sess, st *d13Stmt) {
 	r.Count("ddl.auto." + st.K)
 	r.OracleChecks++
 	c.lastWhat = fmt.Sprintf("after the autocommit statement of session %d [%s]", s.id, q)
-	kz := c.stmtCause(st, c.ref) // known cause attached to this statement kind / object (c13_ddlx.go), "" otherwise
+	kz := c.stmtCause(st, c.ref, d13Class(res.Err)) // known cause attached to this statement kind / object (c13_ddlx.go), "" otherwise
 	c.taintName(st, false)
 	switch {
 	case res.Err != "" && want == "":
@@ -1155,7 +1162,7 @@ func (c *d13Case) begin(s *d13Sess) {
 	s.tx, s.inTx = res.Tx, true
 	s.view = c.ref.clone()
 	s.touched, s.gone, s.created, s.renamed, s.renamedT = map[string]int{}, map[string]bool{}, map[string]bool{}, map[string]bool{}, map[string]bool{}
-	s.droppedIx = map[string]bool{}
+	s.droppedIx = map[string][]string{}
 	s.kind = []string{"empty", "empty", "reader", "reader", "writer", "writer", "writer", "ddl", "ddl", "mixed"}[c.rng.Intn(10)]
 	c.r.Count("ddl.begin." + s.kind)
 }
@@ -1222,10 +1229,12 @@ func (c *d13Case) inTxStmt(s *d13Sess, st *d13Stmt) {
 				cz = ":table-created-in-same-tx" // its store index is registered by the next transaction's BEGIN
 			case st.K == "create-index" && st.Unique && res.Err == "limited-index-creation" && s.deletedFrom(st.T):
 				cz = ":row-deleted-earlier-in-same-tx" // R4: the emptiness test (one prefix read) still finds a row this transaction deleted
-			case st.K == "drop-column" && s.droppedIx[st.T] && strings.Contains(res.Err, "indexes require it"):
-				cz = ":index-dropped-in-same-tx" // Table.deleteIndex deletes indexesByColID[index.id]: a column map keyed by an index id
+			case st.K == "drop-column" && len(s.droppedIx[st.T]) > 0 && strings.Contains(res.Err, "indexes require it"):
+				// R24, repaired (known_findings.json → fixed): Table.deleteIndex deleted indexesByColID[index.id], a column map keyed by an
+				// index id. The reference expects the statement to succeed; the exact symptom keeps its signature
+				cz = ":index-dropped-in-same-tx"
 			}
-			if kz := c.stmtCause(st, s.view); kz != "" {
+			if kz := c.stmtCause(st, s.view, d13Class(res.Err)); kz != "" {
 				cz = kz // a cause attached to the statement kind / the object it names (c13_ddlx.go)
 			}
 			cls := d13Class(res.Err) + cz
@@ -1262,7 +1271,7 @@ func (c *d13Case) inTxStmt(s *d13Sess, st *d13Stmt) {
 	case s.viewLost:
 	case want != "" && exact:
 		cz := s.ownDDLCause(st)
-		if kz := c.stmtCause(st, s.view); kz != "" {
+		if kz := c.stmtCause(st, s.view, ""); kz != "" {
 			cz = kz
 		}
 		c.fail(c.stmtSig("C13:stmt:must-fail-accepted:"+want, cz, st), fmt.Sprintf("session %d: [%s] succeeds inside the transaction although its view makes it invalid (%s)", s.id, q, want))
@@ -1295,11 +1304,59 @@ func (c *d13Case) inTxStmt(s *d13Sess, st *d13Stmt) {
 	case "rename-column":
 		s.renamed[st.T] = true
 	case "drop-index":
-		s.droppedIx[st.T] = true
+		s.droppedIx[st.T] = append(s.droppedIx[st.T], st.ICols...)
+		c.r.Count("ddl.intx.drop-index.ok")
+		c.columnsAfterDropIndex(s, st)
+	case "drop-column":
+		if len(s.droppedIx[st.T]) > 0 {
+			c.r.Count("ddl.intx.drop-column.after-drop-index-in-same-tx")
+		}
 	}
 	if st.K == "delete" {
 		s.gone[st.T+"/"+strconv.FormatInt(st.ID, 10)] = true
 	}
+}
+
+// R24 (repaired): inside the transaction that dropped an index COLUMNS(t) must report indexed / unique from the remaining indexes: the
+// columns of the dropped index are indexed only where another index covers them, every other column keeps its flags. Compared where
+// the transaction's view is exact and the per-table maps are not under another known defect (R14 created, R16 renamed, R23 reordered).
+func (c *d13Case) columnsAfterDropIndex(s *d13Sess, st *d13Stmt) {
+	vt := s.view.T[st.T]
+	if vt == nil || s.viewLost || s.created[st.T] || s.renamed[st.T] || s.renamedT[st.T] || c.trunc[st.T] {
+		return
+	}
+	cq := c.query(s.id, s.tx, "SELECT * FROM COLUMNS('"+st.T+"')")
+	c.r.OracleChecks++
+	c.r.Count("ddl.intx.columns-after-drop-index")
+	line := vt.catalogLine()
+	want := line[strings.Index(line, "cols[")+5 : strings.Index(line, "] idx[")]
+	if got := strings.Join(d13ColLines(cq), " "); cq.Err != "" || got != want {
+		c.fail("C13:intx:catalog-differs-from-begin-plus-own-ddl:columns-after-drop-index", fmt.Sprintf("session %d inside its transaction, after [%s]: COLUMNS('%s') reports %s [%s]; the catalog of BEGIN plus its own DDL has [%s] (name:type:length:flags, flags = nullable/auto_increment/indexed/primary/unique)", s.id, st.sql(), st.T, cq.Err, got, want))
+	}
+}
+
+// a column of an index this transaction dropped (sorted: deterministic), "" if there is none in the view any more
+func (s *d13Sess) droppedIxColumn(rng *hx.Rng) (table, col string) {
+	var cands [][2]string
+	for t, cols := range s.droppedIx {
+		vt := s.view.T[t]
+		if vt == nil {
+			continue
+		}
+		for _, cn := range cols {
+			for _, vc := range vt.Cols[1:] {
+				if vc.Name == cn {
+					cands = append(cands, [2]string{t, cn})
+				}
+			}
+		}
+	}
+	if len(cands) == 0 {
+		return "", ""
+	}
+	sort.Slice(cands, func(i, j int) bool { return cands[i][0]+"/"+cands[i][1] < cands[j][0]+"/"+cands[j][1] })
+	k := cands[rng.Intn(len(cands))]
+	return k[0], k[1]
 }
 
 // queries inside the open transaction
@@ -1618,6 +1675,12 @@ func (c *d13Case) step(s *d13Sess) {
 		wantDDL := s.kind == "ddl" && rng.Intn(10) < 7 || s.kind == "mixed" && rng.Intn(10) < 3
 		if !s.viewLost && wantDDL {
 			st = c.genDDL(s.view)
+			// DROP INDEX then DROP COLUMN of its column in one transaction (R24, repaired): valid unless another index / a CHECK needs the column
+			if len(s.droppedIx) > 0 && rng.Intn(2) == 0 {
+				if t, col := s.droppedIxColumn(rng); t != "" {
+					st = &d13Stmt{K: "drop-column", T: t, C: col}
+				}
+			}
 		} else if !s.viewLost {
 			st = c.genDML(s.view, s)
 		}
